@@ -91,7 +91,14 @@ def _fr(x):
     if isinstance(x, float):
         # a float met by the symbolic run is a literal / constant of the source: read it as the decimal it denotes
         # (32.184, 1e-6, 86400.0 ...) -- the exact-real model of the arithmetic the code intends
-        return Fr(repr(x)) if x == x and abs(x) != float("inf") else Fr(x)
+        if x != x or abs(x) == float("inf"):
+            return Fr(x)
+        # ... or the simple fraction it was computed from in the source (-2 / 3, 1 / 6, 3 / 32 ...)
+        cand = Fr(x).limit_denominator(10 ** 7)
+        if x != 0 and abs(cand - Fr(x)) <= abs(Fr(x)) * Fr(1, 2 ** 51) and cand.denominator < 10 ** 5 and \
+                Fr(repr(x)).denominator > 10 ** 12:
+            return cand
+        return Fr(repr(x))
     raise TypeError(type(x))
 
 
